@@ -140,6 +140,9 @@ def run(ctx):
         lim = H.DEFAULT_LIM if rng.random() < 0.7 else rng.choice(H.SMALL_LIMS[:3] + H.SMALL_LIMS[4:])
         items.append((s, lim))
         classes.append(cls)
+    for s in H.bad_content_length_streams():
+        items.append((s, H.DEFAULT_LIM))
+        classes.append("directed-bad-content-length")
     # systematic: every single insertion / deletion / line duplication in a few base streams
     for bi, base in enumerate(H.SYSTEMATIC_BASES):
         for mstream in H.systematic_mutants(base, rng, 0.34 if ctx.quick else 1.0):
